@@ -213,6 +213,7 @@ def run_case(g, thorough: bool) -> Case:
     introspected = getattr(g, "introspected", False)
     gsm = g.gsm_harness if introspected else gs
     cs.d("schema_source", "introspection" if introspected else "sdl")
+    cs.d("config", f"snake={'on' if snake else 'off'},custom_scalar={'configured' if scalars_cfg else 'plain'}")
     ssx, csx = ci.schema_sx(gsm), ci.customs_sx(scalars_cfg)
 
     def emitted_literal(tn_, fn_):
